@@ -495,5 +495,30 @@ def check_list(seedt, ctx):
                         break
             if [id(c) for c in st.circuit_list] != [id(circs[i]) for i in stored]:
                 ctx.violation("storage_list_inconsistent", case, {"config": config}, key="dedup_storage_list")
+            if config != "disabled" and stored and (n_e + n_p) >= 1:
+                # history on the storage: a kept circuit is edited in place by its owner (one more gate at the end), then a
+                # fresh circuit equal to its OLD version is offered. It may only be refused if it is equivalent to a circuit
+                # that is kept NOW (the edited one counts with its new operations).
+                j = stored[int(rng.integers(len(stored)))]
+                reg = ("e", int(rng.integers(n_e))) if n_e and (not n_p or rng.random() < 0.5) else ("p", int(rng.integers(n_p)))
+                d = {"kind": ["X", "H", "Z", "P"][int(rng.integers(4))], "q": [reg]}
+                if d["kind"] not in ONEQ:
+                    d["kind"] = sorted(ONEQ)[0]
+                old_ops = copy.deepcopy(oplists[j])
+                tmp = Program(n_e, n_p, n_c)
+                o_ = tmp.new_op(d["kind"], [tuple(x) for x in d["q"]], None, None)
+                circs[j].add(make_gq_op(o_))
+                oplists[j] = old_ops + [d]
+                cand = build(n_e, n_p, n_c, old_ops)[1]
+                ctx.count("lists:storage_offer_after_inplace_edit")
+                same = orc.equivalent_up_to_renaming if config == "isomorphic" else orc.equivalent
+                if not st.add_new_circuit(cand):
+                    ctx.count("lists:dropped")
+                    if not any(same(old_ops, oplists[k]) for k in stored):
+                        ctx.violation("distinct_circuit_discarded", {**case, "circuits": [_txt(o) for o in oplists]},
+                                      {"by": f"CircuitStorage({config}) after a kept circuit was edited in place", "edited": j, "appended": _txt([d]),
+                                       "offered": _txt(old_ops), "stored": stored}, key="dedup_drop:storage_after_edit:" + config)
+                elif any(same(old_ops, oplists[k]) for k in stored):
+                    ctx.count("lists:storage_kept_an_equivalent_after_edit")   # sound but not complete: not a violation
     except Exception as e:
         ctx.violation("CircuitStorage_raises", case, {"exception": f"{type(e).__name__}: {e}"[:300]}, key="dedup_exc:storage")
